@@ -225,7 +225,8 @@ example : (demoS3.api.filter (fun j => j.ownerUid = some "u1".toList ∧ j.sched
   decide
 
 /-- Without the exclusion of the zero time the invariant is false in the model (and in the code:
-corpus scenario `zero-time-name`, finding C02-F1): two syncs of the same work item one second apart
+corpus scenario `zero-time-name`; observed, not a finding: `CronWorker.Work` never requests the zero time,
+it skips `ts.IsZero()`): two syncs of the same work item one second apart
 create two Jobs with the same owner and the same schedule-time annotation. -/
 theorem at_most_one_fails_at_zero_time :
     let key := jobConfigKey cfgV1.ns cfgV1.name zeroUnix
